@@ -66,6 +66,26 @@ def check(run, P):
              "prefix and counts writer statements without de-duplication", minimum=4)
     run.rule("C10.switch", "every SwitchPhase of every phase has its target tested "
              "against the phase map", minimum=2)
+    run.rule("C10.consumers", "the consumers that assume well-formedness keep their "
+             "own plan / order bookkeeping sound (shared with C04.post / C04.front / "
+             "C04.mark / C04.reset and C05.topo)", minimum=12)
+    from . import c04, c05
+    from .c01 import _alias
+    C = P.cls(c04.EC)
+    _alias(run, "C04.post", "C10.consumers", lambda: c04._post(run, P, C))
+    _alias(run, "C04.front", "C10.consumers", lambda: c04._front(run, P, C))
+    _alias(run, "C04.reset", "C10.consumers", lambda: c04._reset(run, P, C))
+    for src_rule in ("C04.mark", "C04.dispatch", "C05.topo", "C05.wrap"):
+        run.rule_docs[src_rule] = ""
+        run.minimum[src_rule] = 0
+    n0 = len(run.obs)
+    c04._mark(run, P, C)
+    c05._topo_wrap(run, P)
+    for o in run.obs[n0:]:
+        o.rule = "C10.consumers"
+    for src_rule in ("C04.mark", "C04.dispatch", "C05.topo", "C05.wrap"):
+        del run.rule_docs[src_rule]
+        del run.minimum[src_rule]
     _scope(run, P)
     calls(run, P, "C10.calls")
     _raise(run, P)
